@@ -57,6 +57,19 @@ def gen(rnd, big=False, as_much_share=0.12):
     return dict(rooms=n, shelves=shelves, card=card, prefs=prefs, names=names)
 
 
+def directed():
+    """fixed specifications every run includes: two preferences on adjacent numeric levels whose optima conflict, the lower one (level 0
+    included) restricted by ', where R is one of ...' (the copies made for the values must stay on the level the sentence names)"""
+    out = []
+    for lo, hi in ((0, 1), (1, 2), (0, 3)):
+        for only in ([1, 2], [1]):
+            for names in (('R', 'S', 'W'), ('X1', 'Y2', 'Z_3')):
+                out.append(dict(rooms=2, shelves=[(1, 2), (4, 1)], card=('exactly', 1), names=names, prefs=[
+                    dict(kind='var', dir='minimized', prio=hi, col='weight', only=None),
+                    dict(kind='var', dir='minimized', prio=lo, col='shelf', only=only)]))
+    return out
+
+
 def render_pref(p, names=('R', 'S', 'W')):
     t = render_pref0(p)
     if p.get('only'):
